@@ -439,6 +439,12 @@ pub fn gen_rawlib(src: &mut Src, o: &RawGenOpts) -> RLib {
                     shapes.push(RShape { layer, purpose, geom: RGeom::Rect(contact.0, contact.1), net: Some("ct".to_string()) });
                 }
             }
+            // a die-sized strip far from everything else: both corners are 32-bit coordinates, their
+            // distance is not (nothing in the format limits the extent of a shape)
+            if src.prob(1, 30) {
+                let y = *src.pick(&[2_000_000_000i64, -2_000_000_100]);
+                shapes.push(RShape { layer: src.index(layers.len()), purpose: 0, geom: RGeom::Rect((-2_100_000_000, y), (2_100_000_000, y + 10)), net: None });
+            }
             // instances of earlier cells that have a layout
             let targets: Vec<usize> = (0..ci).filter(|i| cells[*i].has_layout || o.instances_of_abstracts).collect();
             if !targets.is_empty() {
@@ -460,7 +466,7 @@ pub fn gen_rawlib(src: &mut Src, o: &RawGenOpts) -> RLib {
                 }
             }
             if o.annotations && src.prob(1, 3) {
-                annotations.push((src.pick(&["note", "TODO: fix", "A b"]).to_string(), (src.signed(100), src.signed(100))));
+                annotations.push((src.pick(&["note", "TODO: fix", "A b", "Rev B \n", "OWNER   ", "\ttab\t", " lead", "", "two\nlines\n"]).to_string(), (src.signed(100), src.signed(100))));
             }
         }
         let abs = if o.abstracts && (abs_only || src.prob(1, 4)) {
@@ -490,7 +496,15 @@ pub fn gen_rawlib(src: &mut Src, o: &RawGenOpts) -> RLib {
             let nb = src.usize_in(0, obs_layers.len().min(3));
             let mut idx: Vec<usize> = obs_layers.clone();
             src.shuffle(&mut idx);
-            let blockages = idx[..nb].iter().enumerate().map(|(k, l)| (*l, (0..src.usize_in(1, 2)).map(|j| { let g = gen_geom(src, 20 + k * 2 + j).0; maybe_close(src, o, g) }).collect())).collect();
+            let mut blockages: Vec<(usize, Vec<RGeom>)> = idx[..nb].iter().enumerate().map(|(k, l)| (*l, (0..src.usize_in(1, 2)).map(|j| { let g = gen_geom(src, 20 + k * 2 + j).0; maybe_close(src, o, g) }).collect())).collect();
+            // an obstruction may be listed twice (LEF files repeat them): each entry is kept
+            for b in blockages.iter_mut() {
+                if src.prob(1, 5) {
+                    let g = b.1[src.index(b.1.len())].clone();
+                    let at = src.index(b.1.len() + 1);
+                    b.1.insert(at, g);
+                }
+            }
             Some(RAbs { outline, ports, blockages })
         } else {
             None
